@@ -819,7 +819,18 @@ class Interp:
         idx = self.eval_index(target.slice, env)
         new = self.np.store(self, arr, idx, v, target, env)
         if new is not None:
+            for k in list(env):
+                if env[k] is arr:
+                    env[k] = new  # every alias of the mutated array sees the store
             env[base.id] = new
+            self._rebind_in_containers(env, arr, new)
+
+    def _rebind_in_containers(self, env, old, new):
+        for v in env.values():
+            if isinstance(v, Tup):
+                for i, x in enumerate(v.items):
+                    if x is old:
+                        v.items[i] = new
 
     def eval_index(self, node, env):
         if isinstance(node, ast.Tuple):
